@@ -235,3 +235,20 @@ Definition spec_comp_inject_ok (composite_carrier parts_carrier : list entry) : 
   check (entries_eqb composite_carrier parts_carrier) "composite_inject_all:differs_from_parts_in_order".
 Definition spec_comp_extract_ok (composite_ctx threaded_ctx : ctx_obs) : list tok :=
   check (ctx_obs_eqb composite_ctx threaded_ctx) "composite_extract_threads_in_order:differs_from_manual_fold".
+
+(* ------------------------------------------------------------------------------------------
+   Purity probe (harness/c15_purity.cc, ThreadSanitizer build).  The model's operations are functions of
+   immutable values, so whatever several threads compute from shared objects is what one thread computes:
+   the only observation the model predicts is PURE.  This is a run-time probe of that modelling
+   assumption on the real code, not a theorem; the probe's other observations name the failed clause. *)
+Definition spec_purity_ok (obs : list tok) : list tok :=
+  match obs with
+  | [t] => if is_tag "PURE" t then [] else fail "obs:unparsable"
+  | t :: _ => if is_tag "RACE" t then fail "purity:data_race"
+              else if is_tag "DIFFERS" t then fail "purity:result_differs"
+              else if is_tag "HARNESSRACE" t then fail "harness:probe_race"
+              else if is_tag "HANG" t then fail "purity:hang"
+              else if is_tag "CRASH" t then fail "purity:crash"
+              else fail "obs:unparsable"
+  | [] => fail "obs:unparsable"
+  end.
